@@ -91,6 +91,17 @@ def readings(seg) -> dict:
     return out
 
 
+def _find_rec(recs: list, name: str):
+    for r in recs:
+        if r["cls"] == "Segment":
+            f = _find_rec(r["elements"], name)
+            if f is not None:
+                return f
+        elif r["name"] == name:
+            return r
+    return None
+
+
 def roundtrip(recs: list, root: str, En: float, P, title: Optional[str] = None, info: Optional[str] = None,
               only: Optional[str] = None) -> list:
     """all failures [(signature, what)] of one save/load round trip (`only`: stop at / filter for this signature)"""
@@ -105,6 +116,17 @@ def roundtrip(recs: list, root: str, En: float, P, title: Optional[str] = None, 
         seg = FU.build_full(rec, DT)
     except Exception as ex:      # cheetah rejects the configuration itself: not a statement about LatticeJSON
         raise Rejected(type(ex).__name__) from ex
+    # leaves marked "trainable": the listed settings are re-defined as torch.nn.Parameter after construction, the way the
+    # documentation sets up gradient-based tuning; saving must leave them trainable
+    for path, el in FU.walk(seg):
+        r = _find_rec(recs, el.name)
+        for attr in (r or {}).get("trainable", []):
+            v = getattr(el, attr, None)
+            if isinstance(v, torch.Tensor) and v.is_floating_point() and not isinstance(v, torch.nn.Parameter):
+                try:
+                    setattr(el, attr, torch.nn.Parameter(v.detach().clone()))
+                except Exception:  # noqa: BLE001  (settings that are properties over other buffers cannot be re-registered)
+                    pass
     snap = FU.Snapshot(seg)
     struct0 = FU.structure(seg)
     fd, fn = tempfile.mkstemp(suffix=".json", prefix="c14_", dir="/tmp")
@@ -336,7 +358,15 @@ def gen_case(rng, mode: str) -> dict:
         cls = kinds[int(i)]
         p_set = 1.0 if (mode == "class" and int(i) == 0) or rng.random() < 0.5 else 0.5
         vector = 3 if rng.random() < 0.3 else None
-        r = FU.gen_full(rng, cls, f"{cls[:4].lower()}_{j}", p_set=p_set, vector=vector)
+        nm = f"{cls[:4].lower()}_{j}"
+        if rng.random() < 0.2:      # names JSON has to escape (Bmad super-slave names contain a backslash) or non-ASCII
+            nm = FU.pick(rng, "Q1\\B2", 'D"0', "d\\n1", "tab\there", "ä_µ", "a b", "x/y", "it's") + f"_{j}"
+        r = FU.gen_full(rng, cls, nm, p_set=p_set, vector=vector)
+        if rng.random() < 0.25:     # a setting re-defined as torch.nn.Parameter after construction (gradient-based tuning)
+            floats = [k for k, v in r["args"].items() if isinstance(v, float) or
+                      (isinstance(v, list) and v and all(isinstance(x, float) for x in v))]
+            if floats:
+                r["trainable"] = [floats[int(rng.integers(len(floats)))]]
         if cls == "Aperture" and rng.random() < 0.3:
             r["args"][FU.pick(rng, "x_max", "y_max")] = float("inf")     # the documented default: no limit in that plane
         if cls == "TransverseDeflectingCavity" and rng.random() < 0.7:
@@ -351,7 +381,7 @@ def gen_case(rng, mode: str) -> dict:
 
     def wrap(rs):
         cnt[0] += 1
-        return {"cls": "Segment", "name": f"sub{cnt[0]}", "elements": rs}
+        return {"cls": "Segment", "name": f"sub{cnt[0]}" if rng.random() < 0.8 else f"arc\\{cnt[0]}", "elements": rs}
     if force == "first" and recs:
         recs = [wrap(recs[:1])] + recs[1:]
     elif force == "last" and recs:
